@@ -24,6 +24,9 @@ PROP = {
         "fair_wakeup"]],
     "components": [
         {"c": "co", "quick": {"n": 10000, "exhaustive": True}, "thorough": {"n": 40000, "exhaustive": True, "seeds": 4}},
+        # the queue's duplicate counts as the Subscribe server reports them, per subscriber (C11 anchors subscribe.go too:
+        # seeded change c11_seed10 let one subscriber's count leak into another's response through the shared cached update)
+        __import__("subprops").su_component("c08", 100, 1200),
     ],
     "extra": [steps_C11.race_stage, steps_C11.summarise],
     "monitor": "spec",
